@@ -10,4 +10,10 @@ def obligations(tier):
     L = []
     for n in ([1, 2, 5, 19, 20, 21] if q else list(range(1, 23))):
         L.append(ob("parseuint/n=%d" % n, "internal/jsonwire", "VerifC10ParseUint", [n], timeout_ms=60000))
+    for neg in (False, True):
+        for nd, tail in ([(1, ""), (18, ""), (19, ""), (20, ""), (21, ""), (2, ".5"), (1, "e2"), (19, ".0")] if q else
+                         [(n, "") for n in range(1, 23)] + [(1, ".5"), (2, "e2"), (19, ".0"), (20, "e0"), (3, "E+1")]):
+            L.append(ob("tokraw/neg=%d/digits=%d/tail=%s" % (neg, nd, tail or "none"), "jsontext", "VerifC10TokRaw", [neg, nd, tail], timeout_ms=60000))
+    for k in (0, 1, 2):
+        L.append(ob("toktyped/kind=%d" % k, "jsontext", "VerifC10TokTyped", [k], timeout_ms=120000, second="z3-new" if k < 2 else ""))
     return L
